@@ -1,5 +1,5 @@
 (* C03 — Finalizers gate destruction; blocking lifecycle helpers never miss or jump. Statements only. *)
-From Verif Require Import Store StoreProofs Helpers HelpersProofs.
+From Verif Require Import Store StoreProofs Helpers HelpersProofs Wakeup.
 Open Scope N_scope.
 
 (* a resource is never removed while it holds a finalizer: no operation by any party, in any state *)
@@ -93,3 +93,34 @@ Example C03_nonvacuous :
               CThread 0 6%Z; CThread 0 7%Z; CThread 0 8%Z] in
   map th_pc (sy_threads s) = [PDone HGone] /\ sy_store s = [].
 Proof. vm_compute. split; reflexivity. Qed.
+
+(* ---- no missed wake-up as an invariant of the whole system (Wakeup.v) -----------------------------------------------
+   from any initial store, for any set of helper calls, every schedule of their steps, of environment operations and of
+   watch failures: a TeardownAndDestroy blocked on its watch with nothing queued is blocked on a resource that holds a
+   finalizer NOW - so whenever the finalizers are (or become) empty, or the resource is gone, a delivery is queued *)
+Theorem C03_tad_blocked_only_on_finalizers : forall st cs sched i t,
+  let s := sys_run (mkSys st (map new_thread cs)) sched in
+  nth_error (sy_threads s) i = Some t -> h_kind (th_call t) = KTeardownAndDestroy ->
+  th_pc t = PRecv ->
+  exists q, th_watch t = Some q /\
+    (q = [] -> exists r, st_get (h_key (th_call t)) (sy_store s) = Some r /\ r_fins r <> []).
+Proof. exact tad_blocked_only_on_finalizers. Qed.
+Print Assumptions C03_tad_blocked_only_on_finalizers.
+
+(* the same for teardown-bound contexts: still blocked with nothing queued only while the resource exists and runs *)
+Theorem C03_ctx_blocked_only_while_running : forall st cs sched i t,
+  let s := sys_run (mkSys st (map new_thread cs)) sched in
+  nth_error (sy_threads s) i = Some t -> h_kind (th_call t) = KCtxTeardown ->
+  th_pc t = PRecv ->
+  exists q, th_watch t = Some q /\
+    (q = [] -> exists r, st_get (h_key (th_call t)) (sy_store s) = Some r /\ r_phase r = false).
+Proof. exact ctx_blocked_only_while_running. Qed.
+Print Assumptions C03_ctx_blocked_only_while_running.
+
+(* and a queued event can always be received: the helper's step consumes it *)
+Theorem C03_recv_enabled : forall s i t e q now,
+  nth_error (sy_threads s) i = Some t -> th_pc t = PRecv -> th_watch t = Some (e :: q) ->
+  nth_error (sy_threads (sys_step s (CThread i now))) i =
+    Some (mkTh (th_call t) (resume (th_call t) PRecv (SEv e)) (Some q)).
+Proof. exact recv_enabled. Qed.
+Print Assumptions C03_recv_enabled.
